@@ -840,3 +840,27 @@ example : C07.Scoped C07.demoG [] [.genFixed .uniformRA [⟨.f32, [7, 8, 9]⟩],
     .initTrial 2 ⟨[], none, none, []⟩, .resetCache] := by
   simp only [C07.Scoped, C07.UsesOnly]
   decide
+
+/-- **Scrambling on the MC path changes only the documented fields of the drawn events.**  `MCDataSamplingBkgGenMethod`:
+`bkg = cache[drawn indices]`, then the scrambling method assigns its fields into `bkg` (`copy=False`): whenever the selection
+succeeds, `bkg` has the length of the selection and every field outside `documented m` is the selected column of the cache
+(what `get_selection` returned) — whatever arrays the method assigned. -/
+theorem c07_scramble_mc (ts : List Table) (cache : Nat) (draw : List Int) (m : Option Scr) (vals : List Col) (tsel : Table)
+    (hsel : stepT ts (.getSel cache (.idx draw)) = (ts ++ [tsel], .ok (.cont ts.length))) :
+    ∃ t', (runT ts ([.getSel cache (.idx draw)] ++ setItems ts.length (scrSets m vals)))[ts.length]? = some t' ∧
+      t'.len = tsel.len ∧ ∀ n, n ∉ (scrSets m vals).map (·.1) → t'.cols.lookup n = tsel.cols.lookup n := by
+  simp only [List.cons_append, List.nil_append, runT, hsel]
+  have hl : (ts ++ [tsel])[ts.length]? = some tsel := by simp
+  exact C07.setItems_run (scrSets m vals) _ ts.length _ hl
+
+/-- with the per-method table of documented fields -/
+theorem c07_scramble_mc_method (ts : List Table) (cache : Nat) (draw : List Int) (m : Scr) (vals : List Col) (tsel : Table)
+    (hsel : stepT ts (.getSel cache (.idx draw)) = (ts ++ [tsel], .ok (.cont ts.length))) :
+    ∃ t', (runT ts ([.getSel cache (.idx draw)] ++ setItems ts.length (scrSets (some m) vals)))[ts.length]? = some t' ∧
+      t'.len = tsel.len ∧ ∀ n, n ∉ documented m → t'.cols.lookup n = tsel.cols.lookup n := by
+  obtain ⟨t', h1, h2, h3⟩ := c07_scramble_mc ts cache draw (some m) vals tsel hsel
+  exact ⟨t', h1, h2, fun n hn => h3 n (fun hmem => hn (c07_scrSets_documented m vals n hmem))⟩
+
+/-- non-vacuity: drawing rows 2, 0, 2 of the demo MC and scrambling `ra` uniformly -/
+example : stepT (runT [] [.new C07.demoExp, .new C07.demoExp]) (.getSel 1 (.idx [2, 0, 2])) =
+    (runT [] [.new C07.demoExp, .new C07.demoExp] ++ [⟨3, [(3, ⟨.i16, [2, 3, 2]⟩), (0, ⟨.f32, [12, 10, 12]⟩)]⟩], .ok (.cont 2)) := by decide
